@@ -444,6 +444,26 @@ func (k *KMP) AcceptEnd(s int) bool { return s == len(k.needle) }
 // Product search.
 
 // ProductStats reports what a product search covered.
+// Fold feeds the lower-cased character to A.
+type Fold struct{ A Automaton }
+
+// Start implements Automaton.
+func (f Fold) Start() int { return f.A.Start() }
+
+// NumStates implements Automaton.
+func (f Fold) NumStates() int { return f.A.NumStates() }
+
+// Step implements Automaton.
+func (f Fold) Step(s int, c rune) int {
+	if c >= 'A' && c <= 'Z' {
+		c += 'a' - 'A'
+	}
+	return f.A.Step(s, c)
+}
+
+// AcceptEnd implements Automaton.
+func (f Fold) AcceptEnd(s int) bool { return f.A.AcceptEnd(s) }
+
 type ProductStats struct {
 	States      int
 	Transitions int
